@@ -75,9 +75,14 @@ class BlockingExecutor(Executor):
                 parent_value, self.context_value, info
             )
 
-        return self.complete_value(
-            field_definition.type, nodes, path, info, resolved
-        )
+        try:
+            return self.complete_value(
+                field_definition.type, nodes, path, info, resolved
+            )
+        except ResolverError as err:
+            # e.g. raised while resolving the type of an abstract value.
+            self.add_error(err, path, node)
+            return None
 
     def complete_list_value(
         self,
